@@ -281,7 +281,7 @@ func (e c02End) arm() {
 // transfer prepares a sequential checked transfer from one end of the pair to the other.
 func (p *c02Pair) transfer(toServer bool, payload []byte, writes []int, each bool, pol memconn.Policy, buf []byte) *memconn.Transfer {
 	w, r := c02End{p, !toServer}, c02End{p, toServer}
-	tr := &memconn.Transfer{W: w, R: r, Payload: payload, Writes: writes, DrainEach: each, Buf: buf}
+	tr := &memconn.Transfer{W: w, R: r, Payload: payload, Writes: writes, DrainEach: each, Buf: buf, Zeros: pol.Zeros}
 	tr.ReadSize = func(received, accepted int) int { return pol.Size(accepted - received) }
 	tr.Arm = r.arm
 	return tr
